@@ -73,7 +73,8 @@ size_t gp_str_find_first_of(
 {
     for (size_t cplen, i = start; i < gp_str_length(haystack); i += cplen) {
         cplen = gp_utf8_codepoint_length(haystack, i);
-        if (strstr(char_set, memcpy((char[8]){""}, haystack + i, cplen)) != NULL)
+        if (haystack[i].c != '\0' && // strstr() would find the empty string
+            strstr(char_set, memcpy((char[8]){""}, haystack + i, cplen)) != NULL)
             return i;
     }
     return GP_NOT_FOUND;
@@ -86,7 +87,8 @@ size_t gp_str_find_first_not_of(
 {
     for (size_t cplen, i = start; i < gp_str_length(haystack); i += cplen) {
         cplen = gp_utf8_codepoint_length(haystack, i);
-        if (strstr(char_set, memcpy((char[8]){""}, haystack + i, cplen)) == NULL)
+        if (haystack[i].c == '\0' || // strstr() would find the empty string
+            strstr(char_set, memcpy((char[8]){""}, haystack + i, cplen)) == NULL)
             return i;
     }
     return GP_NOT_FOUND;
@@ -522,7 +524,7 @@ void gp_str_trim(
             char codepoint[8] = "";
             size_t size = gp_utf8_codepoint_length(*str, prefix_length);
             memcpy(codepoint, *str + prefix_length, size);
-            if (strstr(char_set, codepoint) == NULL)
+            if (codepoint[0] == '\0' || strstr(char_set, codepoint) == NULL)
                 break;
 
             prefix_length += size;
@@ -542,7 +544,7 @@ void gp_str_trim(
         size_t size;
         while ((size = gp_utf8_codepoint_length(*str, i)) == 0 && --i != 0);
         memcpy(codepoint, *str + i, size);
-        if (strstr(char_set, codepoint) == NULL)
+        if (codepoint[0] == '\0' || strstr(char_set, codepoint) == NULL)
             break;
 
         length -= size;
